@@ -56,6 +56,3 @@ func c01SessionPart(t *testing.T, rec *vrec, caseIdx *int64) {
 	}
 }
 
-func c04SessionPart(t *testing.T, rec *vrec, caseIdx *int64) {}
-func c03SessionPart(t *testing.T, rec *vrec, caseIdx *int64) {}
-func c18SessionPart(t *testing.T, rec *vrec, caseIdx *int64) {}
